@@ -317,14 +317,22 @@ func garbage(seed, n int) []byte {
 // scriptedMain interprets a Script over the raw pipes.
 func scriptedMain(sc *Script, log *PlugLog) func(p *simrt.Process) int {
 	return func(p *simrt.Process) int {
+		return scriptedRun(sc, log, p.Stdin, p.Stdout)
+	}
+}
+
+// scriptedRun is the interpreter proper, over any byte streams (simulated
+// pipes in a run, os.Stdin/os.Stdout in the stub-fidelity cross-check).
+func scriptedRun(sc *Script, log *PlugLog, stdin io.Reader, stdout io.Writer) int {
+	{
 		log.Started = true
 		if sc.ExitAtStart {
 			log.ExitReason = "script-exit-at-start"
 			pFault[ActExitNoReply].Hit()
 			return sc.ExitStatus
 		}
-		in := newSniffReader(p.Stdin, log)
-		out := newSniffWriter(p.Stdout, log)
+		in := newSniffReader(stdin, log)
+		out := newSniffWriter(stdout, log)
 		write := func(b []byte) error {
 			if sc.ByteWrites {
 				for i := range b {
